@@ -156,6 +156,7 @@ func Place(x *T) []Item {
 // type the model rejects are dropped (C08 studies those).
 func Universe(tier string) []Item {
 	out := SizeSweep(tier)
+	out = append(out, Interaction()...)
 	seen := map[string]bool{}
 	for _, b := range Bases(tier) {
 		for _, it := range Place(b) {
@@ -330,4 +331,65 @@ func itoa(i int) string {
 		b = append([]byte{byte('0' + i%10)}, b...)
 	}
 	return string(b)
+}
+
+// Interaction lists struct types in which one derived type occurs twice - once with a tag
+// option and once without (or with another one), directly or inside a further constructor -
+// in both declaration orders. The codecs of such fields are built through one shared
+// (type, tag)-keyed registry, so these shapes are where a lookup under the wrong key shows.
+// Also structs whose declared indexes are not ascending.
+func Interaction() []Item {
+	L := Leaf
+	type dd struct {
+		t    *T
+		opts []string
+	}
+	ds := []dd{
+		{Ptr(L(KInt64)), []string{"", "flat"}}, {&T{K: KInt, Named: "gen.NInt"}, []string{"", "flat"}}, {L(KInt32), []string{"", "flat"}},
+		{Slice(L(KString)), []string{"", "proto"}}, {Slice(S0()), []string{"", "proto"}}, {Map(L(KString), L(KInt)), []string{"", "proto"}},
+		{L(KString), []string{"", "intern"}}, {Ptr(L(KString)), []string{"", "intern"}}, {L(KNullString), []string{"", "intern"}},
+		{Slice(Ptr(S0())), []string{"", "proto"}}, {Ptr(L(KTime)), []string{""}},
+	}
+	var out []Item
+	seen := map[string]bool{}
+	add := func(f1, f2 F) {
+		for _, order := range [][2]F{{f1, f2}, {f2, f1}} {
+			a, b := order[0], order[1]
+			a.Name, a.Index, b.Name, b.Index = "F1", 1, "F2", 2
+			t := Struct(a, b, F{Name: "Z", Index: 9, T: L(KInt)})
+			if v, _ := Accept(Cfg{}, t, ""); v == MustReject || seen[t.String()] {
+				continue
+			}
+			seen[t.String()] = true
+			out = append(out, Item{T: t, Base: f1.T, Opt: f1.Opt, Pos: "interact"})
+		}
+	}
+	for _, d := range ds {
+		for _, o1 := range d.opts {
+			f1 := F{Opt: o1, T: d.t}
+			for _, o2 := range d.opts {
+				if o2 != o1 {
+					add(f1, F{Opt: o2, T: d.t})
+				}
+				add(f1, F{T: Struct(F{Name: "G", Index: 1, Opt: o2, T: d.t})})
+				if d.t.K != KPtr && d.t.K != KMap {
+					add(f1, F{Opt: o2, T: Ptr(d.t)})
+				}
+			}
+			if d.t.K != KMap {
+				add(f1, F{T: Map(L(KString), d.t)})
+			}
+			if !isNull(deref(d.t).K) { // presence of null types inside slices is not claimed (DESIGN §10)
+				add(f1, F{T: &T{K: KSlice, Elem: d.t}})
+			}
+			add(f1, F{T: &T{K: KSlice, Elem: Struct(F{Name: "G", Index: 1, T: d.t})}})
+		}
+	}
+	// declared indexes not ascending (the encoder writes declaration order, the reader any order)
+	for _, idx := range [][3]int{{3, 1, 2}, {2, 3, 1}, {2048, 1, 16}, {16, 2047, 15}} {
+		t := Struct(F{Name: "A", Index: idx[0], T: L(KString)}, F{Name: "B", Index: idx[1], T: L(KInt)}, F{Name: "C", Index: idx[2], T: Slice(L(KUint))})
+		out = append(out, Item{T: t, Base: t, Pos: "interact"},
+			Item{T: Struct(Fld(1, t), Fld(2, Slice(t)), F{Name: "Z", Index: 9, T: L(KInt)}), Base: t, Pos: "interact"})
+	}
+	return out
 }
